@@ -182,12 +182,21 @@ pub fn parse_stdout(stdout: &str) -> Parsed {
         if let Some(msg) = line.strip_prefix("circomspect: ") {
             p.log.push(msg.to_string());
         } else if let Some(mut d) = parse_header(line) {
-            // the location line, if any, follows immediately
-            if i + 1 < lines.len() {
-                if let Some(loc) = parse_loc(lines[i + 1]) {
+            // the location line, if any, follows the (possibly multi-line) message
+            let mut j = i + 1;
+            while j < lines.len() && j <= i + 12 {
+                let l = lines[j];
+                if let Some(loc) = parse_loc(l) {
                     d.loc = Some(loc);
-                    i += 1;
+                    break;
                 }
+                if l.is_empty() || l.starts_with("circomspect: ") || parse_header(l).is_some() || l.trim_start().starts_with("= ") {
+                    break;
+                }
+                // continuation line of the message
+                d.message.push('\n');
+                d.message.push_str(l);
+                j += 1;
             }
             p.diags.push(d);
         }
